@@ -253,6 +253,7 @@ def run_verus_unit_once(unit, work, seed, force, rlimit=None, dropb=None):
                 return linemap[idx]
             return dict(origin=['gen'], fn=None)
         pinf = info(prim[0]) if prim else dict(origin=['gen'], fn=None)
+        body_fn = None
         ob_id = None
         owner = None
         fn = pinf['fn']
@@ -267,6 +268,9 @@ def run_verus_unit_once(unit, work, seed, force, rlimit=None, dropb=None):
             if sec:
                 sinf = info(sec[0])
                 where = origin_str(sinf['origin'])
+                # a clause declared on a trait method fails in the body of an implementation: that body is what may have lost
+                # its proof text (harmless change h5-07)
+                body_fn = sinf.get('fn')
         elif o[0] == 'src':
             # body obligation → function's safety obligation, refined by kind and source line
             if fn is None:
@@ -278,7 +282,7 @@ def run_verus_unit_once(unit, work, seed, force, rlimit=None, dropb=None):
         else:
             tool_errors.append("error in %s: %s" % (where, msg))
             continue
-        failures.append(dict(obligation=ob_id, owner=owner, fn=fn, kind=kind, where=where, message=msg,
+        failures.append(dict(obligation=ob_id, owner=owner, fn=fn, body_fn=body_fn, kind=kind, where=where, message=msg,
                              rendered=d.get('rendered', '')[:3000]))
     vr = j.get('verification-results', {})
     if vr.get('encountered-vir-error') and not unsupported_fns and not uncompilable_fns:
@@ -561,8 +565,10 @@ def decide(prop, cfg, tier, seed, work, args, t0):
             violations.append(dict(obligation='%s#body-undecided' % fn, owner=prop, fn=fn, kind='lost-proof', where=fn,
                                    message='loop contract lost its anchor or the body uses a construct outside Verus: body unproven', rendered='', unit='-'))
     for v in violations:
-        if v['fn'] in lost:
+        if v['fn'] in lost or (v.get('body_fn') and v['body_fn'] in lost):
             v['undecided'] = True
+            if v['fn'] not in lost:
+                lost[v['fn']] = ['in the implementation %s: %s' % (v['body_fn'], '; '.join(lost[v['body_fn']]))]
     for v in violations:
         rdir = os.path.join(HERE, 'replays', prop)
         os.makedirs(rdir, exist_ok=True)
